@@ -425,11 +425,12 @@ def _cubic_ext(p0, c1, c2, p1):
 
 def tight_bbox(cmds, only_drawn=False):
     """(xmin, ymin, xmax, ymax) from analytic extrema, or None if there are no points.
-    only_drawn: subpaths that consist of a bare moveto do not contribute."""
+    only_drawn: subpaths that consist of a bare moveto do not contribute - nor do subpaths whose only
+    segments are arcs with coincident end points, which SVG (F.6.2) omits entirely."""
     subs = interpret(cmds)
     xs, ys = [], []
     for sp in subs:
-        if only_drawn and not sp.segs:
+        if only_drawn and not any(not (s[0] == "A" and s[1] == s[7]) for s in sp.segs):
             continue
         xs.append(sp.start[0])
         ys.append(sp.start[1])
